@@ -1,18 +1,18 @@
 SPECIFICATION Spec
 CONSTANTS
- MaxBatches = 3
+ MaxBatches = 2
  BatchSizes = {1,2}
  Cap = 2
  SyncWrites = FALSE
- Spill = TRUE
+ Spill = FALSE
  MaxHist = 0
  Keys = {1,2}
  NBuckets = 1
- VCap = 0
- MaxGC = 0
+ VCap = 2
+ MaxGC = 2
  MaxCrash = 1
  FlushWorkers = 1
- GcSync = TRUE
+ GcSync = FALSE
  GcExact = TRUE
 VIEW view
 INVARIANT RecordPrefix
